@@ -271,6 +271,55 @@ def _wstatus_rule(chk, prog):
     chk.floor(rule, 2, n)
 
 
+def _dispatch_rule(chk, prog):
+    """One stream can have a reader fiber and a writer fiber at the same time (a duplex socket shared by two fibers).
+    Streams are registered edge-triggered, so a readiness event is reported once: whoever hands events to the two
+    listeners has to serve BOTH from the same event.  The writer's dispatch must not be reachable only when there is no
+    reader (if/else-if), nor the other way round - the skipped side never sees that edge again and stays suspended."""
+    rule = "C16-DISPATCH"
+    chk.rule(rule, "readiness and close events are delivered to a stream's reader and writer independently of each other")
+    tu = prog.tus["ev.c"]
+    n = 0
+    for fn in tu.funcs.values():
+        roles = {}
+        for x in fn.nodes:
+            if x.k == "vardecl" and x.kids and strip_casts(x.kids[0]).k == "mem" and strip_casts(x.kids[0]).field in ("read_fiber", "write_fiber"):
+                roles[x.name] = strip_casts(x.kids[0]).field
+        if len(set(roles.values())) < 2:
+            continue
+        calls = []
+        for x in fn.nodes:
+            if x.k == "call" and x.callee is None and x.kids:
+                c0 = strip_casts(x.kids[0])
+                if c0.k == "mem" and c0.field == "ev_callback" and is_ref(strip_casts(c0.kids[0])) and strip_casts(c0.kids[0]).name in roles:
+                    calls.append((x, strip_casts(c0.kids[0]).name))
+        if not calls:
+            continue
+        chk.analysed(fn)
+        IN, T = flow.condition_facts(fn)
+        done = set()
+        for x, S in flow.states_at(fn, IN, T):
+            for (c, who) in calls:
+                if x is not c or c.id in done:
+                    continue
+                done.add(c.id)
+                n += 1
+                chk.instance(rule)
+                others = [v for v in roles if roles[v] != roles[who]]
+                dep = None
+                for o in others:
+                    if S and all(any(f[0] == "==" and f[1] == o and (f[5] is None or f[5].v == 0) for f in ps) for ps in S):
+                        dep = o
+                if dep:
+                    chk.violation(rule, "ev.c", fn.name, "%s-needs-no-%s" % (roles[who], roles[dep]), c.loc,
+                                  "the event is passed to the stream's %s only on paths where `%s` (its %s) is NULL: with both a reader "
+                                  "and a writer waiting on the stream one of them never receives the (edge-triggered) event" % (
+                                      roles[who], dep, roles[dep]))
+                else:
+                    chk.ok(rule, "%s: %s dispatch at %s does not depend on the other listener" % (fn.name, roles[who], c.loc))
+    chk.floor(rule, 6, n)
+
+
 def run(chk):
     prog = Program.load("default")
     cg = CallGraph(prog)
@@ -278,3 +327,4 @@ def run(chk):
     _wake_rule(chk, prog, cg)
     _progress_rule(chk, prog, cg)
     _wstatus_rule(chk, prog)
+    _dispatch_rule(chk, prog)
